@@ -33,9 +33,15 @@ type C03Case struct {
 	RTCase
 	StartFmt string `json:"start_fmt"`
 	Hops     []Hop  `json:"hops"`
+	// Repeat > 1: one stream step of every run is repeated until its binary encoding reaches this many
+	// bytes (streams spanning several 64 KiB buffers), applied when the case is checked
+	Repeat int `json:"repeat,omitempty"`
+	// PyMode: how the Python hops copy ("" = reader.copy_to(writer); list = every stream is first
+	// collected into a list and then written)
+	PyMode string `json:"py_mode,omitempty"`
 }
 
-const c03Rule = "generated package x value sequences (finite floats) x a generated chain of 2-5 hops alternating between the generated C++ and Python code, each hop reading the previous hop's output (binary or NDJSON, starting from a reference-encoded stream) and writing binary or NDJSON; oracle after every hop: accepted, NDJSON output matches the documented mapping, binary output decodes strictly to the original values and is byte-identical to the reference encoding of those values (same block partition and map order); non-trivial = the chain crosses a language boundary and a format boundary; distinct = hash of model + values + chain"
+const c03Rule = "generated package x value sequences (finite floats) x a generated chain of 2-5 hops alternating between the generated C++ and Python code, each hop reading the previous hop's output (binary or NDJSON, starting from a reference-encoded stream) and writing binary or NDJSON; a quarter of the cases repeat one stream step (preferring items that hold arrays/vectors of fixed-width elements) until the stream spans several 64 KiB buffers, and half of the cases let the Python hops collect every stream into a list before writing it; oracle after every hop: accepted, NDJSON output matches the documented mapping, binary output decodes strictly to the original values and is byte-identical to the reference encoding of those values (same block partition and map order); non-trivial = the chain crosses a language boundary and a format boundary; distinct = hash of model + values + chain"
 
 func checkC03(c C03Case) *Fail {
 	rec := core.Rec("C03")
@@ -51,6 +57,10 @@ func checkC03(c C03Case) *Fail {
 	if !usable["python"] || !usable["cpp"] {
 		rec.Skip("one-language-does-not-build")
 		return nil
+	}
+	if c.Repeat > 1 {
+		c.Runs = repeatRuns(b.Env, b.Pkg, c.Runs, c.Repeat, 0)
+		rec.Class("long-stream")
 	}
 	// starting streams
 	cur := make([]string, len(c.Runs))
@@ -75,7 +85,11 @@ func checkC03(c C03Case) *Fail {
 				ext = "ndjson"
 			}
 			next[i] = filepath.Join(b.Root, fmt.Sprintf("hop%d.%d.%s", h+1, i, ext))
-			jobs = append(jobs, sut.Job{Op: "copy", Proto: run.Proto, InFmt: curFmt, OutFmt: hop.Out, In: cur[i], Out: next[i]})
+			j := sut.Job{Op: "copy", Proto: run.Proto, InFmt: curFmt, OutFmt: hop.Out, In: cur[i], Out: next[i]}
+			if hop.Lang == "python" {
+				j.Mode = c.PyMode
+			}
+			jobs = append(jobs, j)
 		}
 		results, err := runJobs(b, hop.Lang, jobs)
 		if err != nil {
@@ -173,9 +187,16 @@ func TestC03(t *testing.T) {
 	replayKnown(t, "C03")
 	rapid.Check(t, func(rt *rapid.T) {
 		cfg := rtGenConfig()
+		cfg.BulkStreamPct = 35
 		applyRuntimeExclusions(&cfg)
 		c := C03Case{RTCase: genRTCase(rt, &cfg, core.Budget(2, 4), valueOpts(value.GenOpts{Budget: 40, FiniteFloats: true}, true), 5)}
 		c.StartFmt, c.Hops = genHops(rt)
+		if rapid.IntRange(0, 3).Draw(rt, "long") == 0 {
+			c.Repeat = rapid.SampledFrom([]int{70000, 140000}).Draw(rt, "repeat")
+		}
+		if rapid.Bool().Draw(rt, "pyList") {
+			c.PyMode = "list"
+		}
 		rec.Eval()
 		crossesFmt := false
 		prev := c.StartFmt
